@@ -276,6 +276,14 @@ class Body:
         self._blocks = None
 
     @property
+    def ret_locals(self):
+        """return places of helper bodies spliced into this one (norm.py)"""
+        return self.j.get("ret_locals", [])
+
+    def _unused(self):
+        pass
+
+    @property
     def blocks(self):
         if self._blocks is None:
             self._blocks = [Block(b, i) for i, b in enumerate(self.j["blocks"])]
@@ -364,6 +372,9 @@ class Facts:
                 for k in c["consts"]:
                     self.consts[k["path"]] = k
         self._children = None
+        self.inlined = {}
+        import norm
+        norm.normalise(self)
 
     def lib_bodies(self):
         return [b for b in self.bodies.values() if b.crate == "lib"]
